@@ -247,8 +247,9 @@ def getMember (h : Heap) (v : Val) (member : Val) : Except String Member :=
     match member with
     | .num x =>
       let i := x.toGoInt
-      if i < 0 || i ≥ s.length then .ok (.char none x)
-      else .ok (.char (some (utf8Encode (s.getD i.toNat 0).toNat)) x)
+      -- the character remembers the TRUNCATED index (`fIndex := float64(index)`, src/value.go:300-303)
+      if i < 0 || i ≥ s.length then .ok (.char none (F64.ofInt i))
+      else .ok (.char (some (utf8Encode (s.getD i.toNat 0).toNat)) (F64.ofInt i))
     | _ => protoGet strProto member
   | .num _ => protoGet numProto member
   | _ => .ok .missing
